@@ -152,6 +152,15 @@ Theorem C10_pause_acknowledged_subtree_paused : forall p n n' up c,
 Proof. exact pause_path_subtree. Qed.
 Print Assumptions C10_pause_acknowledged_subtree_paused.
 
+(* with-items: the pause of ONE item's sub-workflow, reported to the parent task by the scheduled job, pauses the parent
+   workflow and comes down again to the sibling items - whatever the states of the tasks of the parent are *)
+Theorem C10_reported_pause_comes_down_to_siblings : forall c st info sent ts ti si s k subs x n' nt,
+  nth_error ts ti = Some (s, k, subs) -> nth_error subs si = Some x -> nstate x = PAUSED ->
+  notify_path [(ti, si)] (mkN st info sent ts) = Some (n', nt) ->
+  forallb (fun r => negb (state_eqb (r_state r) RUNNING)) (rows c n') = true.
+Proof. exact reported_pause_comes_down. Qed.
+Print Assumptions C10_reported_pause_comes_down_to_siblings.
+
 Theorem C10_pause_of_root : forall n,
   in_class n = true -> (nstate n = RUNNING \/ nstate n = PAUSED) ->
   pause_at [] n = (pause_down n, Ok).
